@@ -124,6 +124,13 @@ CHECKS = {
              "with os.kill to child processes and the process exit status is compared with the configured code.",
         note="line granularity on the main thread (CPython runs Python-level handlers at bytecode boundaries; a signal inside a C call is deferred to the next boundary); "
              "the three interruption states of the non-restartable replace step are listed known findings decided by state predicates", ref="DESIGN.md §3 C13"),
+    "C20": dict(
+        cat="exploration", technique="bounded-progress monitor: per-option real runs with logical step budgets (counters on population batches, INS draw batches, iterations, likelihood points) + C05 oracle on clean finishes",
+        text="Each of 130 standard and 64 importance-sampler option values (proposal classes, latent priors, radius options, reparameterisations, flow and training options, "
+             "reset/retrain policies, uninformed limits, INS thresholds/criteria/redraw/bootstrap/final-flow, posterior sampling methods, plot switches, parallelisation) runs "
+             "FlowSampler(...).run(save=True) under step budgets ~15-100x nominal; the outcome must be a configuration error before the first sampler likelihood call or a clean "
+             "finish with finite results that satisfy the C05 oracle. Thorough adds 2 seeds and ~600 random compatible pair/triple rows on 2- and 3-parameter models.",
+        note="liveness is restated as bounded progress; a wall-clock watchdog without budget overrun is inconclusive; astropy/lal-dependent options are not reachable", ref="DESIGN.md §3 C20"),
 }
 
 PENDING_REASON = "check designed in DESIGN.md but not yet built/calibrated in this session; not claimed until its monitor is silent on the unchanged tree"
